@@ -1218,15 +1218,24 @@ func runNode(hist []Op, open int, pre, preSeal map[string]string) nodeResult {
 	for _, b := range blocks {
 		w2.realBlock(b.h, b.txs)
 	}
-	realRoot, _ := w2.realBlock(next, txs)
+	realRoot, racc := w2.realBlock(next, txs)
 	if realRoot != mirrorRoot {
 		harnessFail("transaction-by-transaction loop and block executor disagree on the state root: %s", histString(hist, open))
 	}
 	m.EndBlock()
 	res.blocks = 2*len(blocks) + 2
-	if !res.diverged {
+	{
+		// also when the state already differs inside the block: what the real block
+		// executor leaves behind is the primary observation and is listed first
+		midF, midDiv := res.findings, res.diverged
+		res.findings = nil
 		fs := oracle(w2, m, oracleCtx{sameBlk: len(hist)-open > 1, lastKind: hist[len(hist)-1].K})
-		addF(fs, "after the shared block")
+		if racc[len(racc)-1] != lastRes.Accepted && !hasTwo(fs) {
+			fs = append(fs, decision(hist[len(hist)-1].K, racc[len(racc)-1], lastRes))
+		}
+		addF(fs, "after the shared block (block executor)")
+		res.findings = append(res.findings, midF...)
+		res.diverged = res.diverged || midDiv
 	}
 	res.sealDump = w2.dump()
 	if noChange && preSeal != nil && !res.diverged {
@@ -1464,6 +1473,7 @@ func replay(c *fw.Ctx, raw json.RawMessage) {
 	}
 	setup()
 	var pre, preSeal map[string]string
+	seen := map[string]bool{}
 	for k := 0; k <= len(cs.Hist); k++ {
 		open := cs.Open
 		if open >= k {
@@ -1475,7 +1485,10 @@ func replay(c *fw.Ctx, raw json.RawMessage) {
 			return
 		}
 		for _, f := range res.findings {
-			fmt.Printf("step %d  %s: %s\n", k, f.Sig, f.Msg)
+			if seen[f.Sig] {
+				continue
+			}
+			seen[f.Sig] = true
 			c.Violation(f.Sig, "replay", fmt.Sprintf("history %s — %s", histString(cs.Hist[:k], open), f.Msg), cs)
 		}
 		pre, preSeal = res.dump, res.sealDump
